@@ -330,6 +330,72 @@ theorem hidden_target_rejected (pfuel : Nat) (rc : Recipe) (tabs : List String)
     rw [hv] at this; cases this
   simpa using this
 
+/-! ### raising the target, and chaining runs -/
+
+/-- rows of iterations `n₁ … n₁+n₂-1`, seen as the row function of a continued run -/
+def shiftRows (r : Nat → Nat) (n₁ : Nat) : Nat → Nat := fun i => r (n₁ + i)
+
+theorem cum_shift (r : Nat → Nat) (n₁ n₂ : Nat) :
+    cum r (n₁ + n₂) = cum r n₁ + cum (shiftRows r n₁) n₂ := by
+  induction n₂ with
+  | zero => simp [cum]
+  | succ k ih =>
+    have : n₁ + (k + 1) = (n₁ + k) + 1 := by omega
+    rw [this]
+    simp only [cum, ih, shiftRows]
+    omega
+
+/-- **stop_monotone.** Raising the row target never shortens the run: over the same iterations, a run
+    that ends normally with target `N` executes no more iterations than one that ends normally with
+    target `N' ≥ N`, and creates no more rows. -/
+theorem stop_monotone (tables : List String) (t : String) (N N' : Nat) (cont : Cont) (r : Nat → Nat)
+    (hc : RowsMode ⟨t, N⟩) (hc' : RowsMode ⟨t, N'⟩) (hN : 1 ≤ N) (hNN : N ≤ N')
+    (n last : Nat) (app : App) (n' last' : Nat) (app' : App)
+    (h : run tables ⟨t, N⟩ cont r = .finished n last app)
+    (h' : run tables ⟨t, N'⟩ cont r = .finished n' last' app') :
+    n ≤ n' ∧ last ≤ last' := by
+  obtain ⟨_, _, g3, g4, _⟩ := stop_minimal tables ⟨t, N⟩ cont r hc hN n last app h
+  obtain ⟨_, k2, _, k4, _⟩ := stop_minimal tables ⟨t, N'⟩ cont r hc' (by simp; omega) n' last' app' h'
+  have hn : n ≤ n' := by
+    apply Nat.le_of_not_lt
+    intro hlt
+    have := g3 n' hlt
+    simp at this k2; omega
+  refine ⟨hn, ?_⟩
+  obtain ⟨d, rfl⟩ : ∃ d, n' = n + d := ⟨n' - n, by omega⟩
+  rw [g4, k4, cum_shift]; omega
+
+example : run ["T"] ⟨"T", 2⟩ none (seqOf [1, 1, 1, 1] 1) = .finished 2 2 ⟨some 2, 2⟩ ∧
+    run ["T"] ⟨"T", 4⟩ none (seqOf [1, 1, 1, 1] 1) = .finished 4 4 ⟨some 4, 4⟩ := by decide
+
+/-- **chain_counts.** Two runs chained by a continuation — the first with target `N₁` over the
+    iterations `0 …`, the second with target `N₂`, started from the last id the first one recorded,
+    over the iterations that follow — together execute `n₁ + n₂` whole iterations, end at id
+    `last0 + cum r (n₁ + n₂)` (no id lost or repeated at the seam), and the second run counted its
+    `N₂` rows from the seam: at least `N₁ + N₂` rows exist in all, and one boundary earlier the
+    second run's share was still below `N₂`. -/
+theorem chain_counts (tables : List String) (t : String) (N₁ N₂ : Nat) (cont : Cont) (r : Nat → Nat)
+    (hc₁ : RowsMode ⟨t, N₁⟩) (hc₂ : RowsMode ⟨t, N₂⟩) (hN₁ : 1 ≤ N₁) (hN₂ : 1 ≤ N₂)
+    (n₁ last₁ : Nat) (app₁ : App) (n₂ last₂ : Nat) (app₂ : App)
+    (h₁ : run tables ⟨t, N₁⟩ cont r = .finished n₁ last₁ app₁)
+    (h₂ : run tables ⟨t, N₂⟩ (some last₁) (shiftRows r n₁) = .finished n₂ last₂ app₂) :
+    last₂ = last0 cont + cum r (n₁ + n₂) ∧ N₁ + N₂ ≤ cum r (n₁ + n₂) ∧
+      (∀ j, j < n₂ → cum r (n₁ + j) < cum r n₁ + N₂) := by
+  obtain ⟨_, g2, _, g4, _⟩ := stop_minimal tables ⟨t, N₁⟩ cont r hc₁ hN₁ n₁ last₁ app₁ h₁
+  obtain ⟨_, k2, k3, k4, _⟩ :=
+    stop_minimal tables ⟨t, N₂⟩ (some last₁) (shiftRows r n₁) hc₂ hN₂ n₂ last₂ app₂ h₂
+  simp only [last0] at k4
+  simp at g2 k2
+  refine ⟨by rw [k4, g4, cum_shift]; omega, by rw [cum_shift]; omega, ?_⟩
+  intro j hj
+  have := k3 j hj
+  simp at this
+  rw [cum_shift]; omega
+
+example : run ["T"] ⟨"T", 3⟩ none (seqOf [2, 2, 2, 2] 2) = .finished 2 4 ⟨some 4, 2⟩ ∧
+    run ["T"] ⟨"T", 3⟩ (some 4) (shiftRows (seqOf [2, 2, 2, 2] 2) 2) = .finished 2 8 ⟨some 8, 2⟩ := by decide
+
+
 section
 open SnowModel.StopTables
 /-- non-vacuity: macro `used` (friend `F`) is included by `T`; macro `ghostm` (friend `Ghost`, nested
